@@ -117,6 +117,19 @@ class RandomBitsPlugin(PrimitiveLeafPlugin):
 
         scale = float(math.ldexp(1.0, bit_width))
         scale_const = _scalar_constant(ctx, scale)
+        if bool(getattr(ctx.builder, "enable_double_precision", False)):
+            # double-precision exports promote float constants to float64 while the
+            # uniform samples stay float32: bring the scale to the samples' type
+            scale_const = cast(
+                ir.Value,
+                ctx.builder.CastLike(
+                    scale_const,
+                    uniform_like,
+                    _outputs=[ctx.fresh_name("rand_bits_scale")],
+                ),
+            )
+            scale_const.type = ir.TensorType(ir.DataType.FLOAT)
+            _stamp_type_and_shape(scale_const, ())
         scaled_val = cast(
             ir.Value,
             ctx.builder.Mul(
